@@ -763,4 +763,35 @@ example : (match load f15 with
     | .ok m => decide (m.lookup "lib" = some "a") && (m.heads.filter (fun t => sharesLineage m t ["a"] false) == ["b"])
     | .error _ => false) = true := by decide +kernel
 
+open C16 in
+/-- **`stamp <unique prefix>` is `stamp <that revision>`**: the steps `_stamp_revs` computes for a
+destination written as a unique prefix (same hypotheses as `upgrade_prefix_eq_full`) are those for the
+revision it names, from every version table — so `C05.stamp_one` applies to it (seed C05-e wrote
+destinations as partial ids). -/
+theorem stamp_prefix_eq_full {h : Hist} {o : LoadOpts} {m : LMap} (hl : load h o = .ok m)
+    (hu : (h.map (·.id)).Nodup) (hd : ∀ r ∈ h, ∀ d ∈ r.down, d ∈ h.map (·.id))
+    (rows : List Id) (ident : String) (hp : Plain ident) (hk : m.lookup ident = none) (hne : ident.isEmpty = false)
+    (x : Id) (hx : x ∈ m.ids) (hpx : Plain x) (hlen : x.length > 3) (hpre : startsWithL x ident = true)
+    (huniq : ∀ y ∈ m.ids, y.length > 3 → startsWithL y ident = true → y = x) :
+    stampRevs m [ident] rows = stampRevs m [x] rows := by
+  have hxe : x.isEmpty = false := by
+    cases hq : x.isEmpty
+    · rfl
+    · have := String.isEmpty_iff.mp hq; subst this; simp at hlen
+  have hs1 : resolveShares m resolveFuel ident = .ok [x] := by
+    unfold resolveFuel resolveShares
+    simp [resolveNumber_plain m 10 ident hp, revisionForIdent_prefix hl hu hd ident hk x hx hlen hpre huniq 10,
+      bind, Except.bind, pure, Except.pure]
+  have hs2 : resolveShares m resolveFuel x = .ok [x] := by unfold resolveFuel; exact resolveShares_plain_id m x hx hpx
+  have hg1 : getRevisionsMany m [ident] = .ok [some x] := by
+    unfold getRevisionsMany
+    simp [prefix_unique_resolves hl hu hd ident hp hk x hx hlen hpre huniq, bind, Except.bind, pure, Except.pure]
+  have hg2 : getRevisionsMany m [x] = .ok [some x] := by
+    unfold getRevisionsMany
+    simp [(full_id m x hx hpx).1, bind, Except.bind, pure, Except.pure]
+  unfold stampRevs
+  simp only [List.isEmpty_cons, Bool.false_eq_true, if_false, List.mapM_cons, List.mapM_nil, hne, hxe,
+    filterForLineage_of_shares m _ ident true [x] hs1, filterForLineage_of_shares m _ x true [x] hs2, hg1, hg2]
+
+
 end C05
